@@ -31,6 +31,7 @@ CONSTANTS Leaves,      \* literal texts that may be pushed
 AllLeaves   == {"0", "1", "2", "3", "7", "0.0", "1.0", "2.0", "0.5", "1.5", "True", "False"}
 SmallLeaves == {"0", "1", "3", "0.0", "1.5", "True"}
 MidLeaves   == {"0", "1", "2", "7", "0.0", "1.0", "0.5", "True", "False"}
+QuickLeaves == {"0", "1", "3", "0.0", "0.5", "1.5", "True", "False"}
 AllUn       == {"neg", "pos", "inv", "not"}
 AllBin      == {"+", "-", "*", "/", "//", "%", "**", "<<", ">>", "&", "|", "^", "and", "or"}
 AllCmp      == {"<", "<=", "==", "!=", ">", ">="}
